@@ -4,9 +4,11 @@ import (
 	"bufio"
 	"fmt"
 	"io"
+	"os"
 	"os/exec"
 	"strconv"
 	"strings"
+	"sync"
 	"time"
 )
 
@@ -266,7 +268,7 @@ func (e *Emitter) emit1(c *Ctx, t *Term) {
 	e.NDefs++
 }
 
-// ---------------------------------------------------------------- solver process
+// ---------------------------------------------------------------- solver processes
 
 type Result int
 
@@ -278,27 +280,52 @@ const (
 
 func (r Result) String() string { return [...]string{"unsat", "sat", "unknown"}[r] }
 
-type Solver struct {
-	Name    string
-	cmd     *exec.Cmd
-	in      *bufio.Writer
-	inRaw   io.WriteCloser
-	out     *bufio.Reader
-	Em      *Emitter
-	Queries int
-	Time    time.Duration
-	Log     io.Writer // optional transcript
-	kind    string
+// Query is one self-contained satisfiability question: the conjunction of Asserts (1-bit terms).
+type Query struct {
+	C       *Ctx
+	Asserts []*Term
 }
 
-// solver kinds: "z3", "z3-new", "cvc5"
-func StartSolver(kind string, timeoutMs int) (*Solver, error) {
+// Text renders the query (definitions of the cone of influence + assertions) and returns the variables it mentions.
+func (q *Query) Text() (string, []*Term, int) {
+	var sb strings.Builder
+	em := NewEmitter(&sb)
+	for _, a := range q.Asserts {
+		if a.W != 1 {
+			panic("assert of non-boolean")
+		}
+		em.Define(q.C, a)
+	}
+	for _, a := range q.Asserts {
+		fmt.Fprintf(&sb, "(assert (= %s #b1))\n", ref(a))
+	}
+	var vars []*Term
+	for _, v := range q.C.Vars {
+		if em.done[v] {
+			vars = append(vars, v)
+		}
+	}
+	return sb.String(), vars, em.NDefs
+}
+
+// Proc is a persistent solver process fed one (reset)-separated query at a time.
+type Proc struct {
+	Kind string
+	cmd  *exec.Cmd
+	in   *bufio.Writer
+	raw  io.WriteCloser
+	out  *bufio.Reader
+	dead bool
+	mu   sync.Mutex
+}
+
+func startProc(kind string, softMs int) (*Proc, error) {
 	var cmd *exec.Cmd
 	switch kind {
 	case "z3", "z3-new":
-		cmd = exec.Command(kind, "-in", fmt.Sprintf("-t:%d", timeoutMs))
+		cmd = exec.Command(kind, "-in", fmt.Sprintf("-t:%d", softMs))
 	case "cvc5":
-		cmd = exec.Command("cvc5", "--incremental", "--lang=smt2", "--produce-models", fmt.Sprintf("--tlimit-per=%d", timeoutMs))
+		cmd = exec.Command("cvc5", "--incremental", "--lang=smt2", "--produce-models", fmt.Sprintf("--tlimit-per=%d", softMs))
 	default:
 		return nil, fmt.Errorf("unknown solver %q", kind)
 	}
@@ -314,147 +341,192 @@ func StartSolver(kind string, timeoutMs int) (*Solver, error) {
 	if err := cmd.Start(); err != nil {
 		return nil, err
 	}
-	s := &Solver{Name: kind, kind: kind, cmd: cmd, inRaw: stdin, in: bufio.NewWriterSize(stdin, 1<<20), out: bufio.NewReaderSize(stdout, 1<<20)}
-	s.Em = NewEmitter(s)
-	if kind == "cvc5" {
-		fmt.Fprintln(s.in, "(set-logic ALL)")
-	}
-	fmt.Fprintln(s.in, "(set-option :produce-models true)")
-	return s, nil
+	return &Proc{Kind: kind, cmd: cmd, raw: stdin, in: bufio.NewWriterSize(stdin, 1<<20), out: bufio.NewReaderSize(stdout, 1<<20)}, nil
 }
 
-func (s *Solver) Write(p []byte) (int, error) {
-	if s.Log != nil {
-		s.Log.Write(p)
-	}
-	return s.in.Write(p)
-}
-
-func (s *Solver) Close() {
-	if s.cmd != nil {
-		fmt.Fprintln(s.in, "(exit)")
-		s.in.Flush()
-		s.inRaw.Close()
-		done := make(chan struct{})
-		go func() { s.cmd.Wait(); close(done) }()
-		select {
-		case <-done:
-		case <-time.After(2 * time.Second):
-			s.cmd.Process.Kill()
-		}
-		s.cmd = nil
+func (p *Proc) kill() {
+	p.mu.Lock()
+	defer p.mu.Unlock()
+	if !p.dead {
+		p.dead = true
+		p.cmd.Process.Kill()
+		go p.cmd.Wait()
 	}
 }
 
-// Reset forgets all definitions (solver (reset)).
-func (s *Solver) Reset() {
-	fmt.Fprintln(s, "(reset)")
-	if s.kind == "cvc5" {
-		fmt.Fprintln(s, "(set-logic ALL)")
-	}
-	fmt.Fprintln(s, "(set-option :produce-models true)")
-	s.Em = NewEmitter(s)
-}
-
-func (s *Solver) Push() { fmt.Fprintln(s, "(push 1)") }
-func (s *Solver) Pop()  { fmt.Fprintln(s, "(pop 1)") }
-
-// Assert asserts that the 1-bit term t is true.
-func (s *Solver) Assert(c *Ctx, t *Term) {
-	if t.W != 1 {
-		panic("assert of non-boolean")
-	}
-	s.Em.Define(c, t)
-	fmt.Fprintf(s, "(assert (= %s #b1))\n", ref(t))
-}
-
-func (s *Solver) readLine() (string, error) {
-	l, err := s.out.ReadString('\n')
-	return strings.TrimSpace(l), err
-}
-
-// Check runs check-sat. Any error line makes the result Unknown with the message.
-func (s *Solver) Check() (Result, string) {
-	t0 := time.Now()
-	fmt.Fprintln(s, "(check-sat)")
-	fmt.Fprintln(s, `(echo "<<done>>")`)
-	s.in.Flush()
-	res := Unknown
-	msg := ""
-	got := false
-	bad := false
+func (p *Proc) readUntilDone() (string, error) {
+	var sb strings.Builder
 	for {
-		l, err := s.readLine()
+		l, err := p.out.ReadString('\n')
 		if err != nil {
-			s.Time += time.Since(t0)
-			return Unknown, "solver died: " + err.Error() + " " + msg
+			return sb.String(), err
 		}
-		l2 := strings.Trim(l, `"`)
-		if l2 == "<<done>>" {
-			break
+		l = strings.TrimSpace(l)
+		if strings.Trim(l, `"`) == "<<done>>" {
+			return sb.String(), nil
 		}
-		switch {
-		case l == "sat" && !got:
-			res, got = Sat, true
-		case l == "unsat" && !got:
-			res, got = Unsat, true
-		case l == "unknown" || l == "timeout":
-			res, got = Unknown, true
-			msg += l + " "
-		case l == "":
-		default:
-			bad = true
-			msg += l + " "
-		}
+		sb.WriteString(l)
+		sb.WriteString("\n")
 	}
-	s.Queries++
-	s.Time += time.Since(t0)
-	if bad || !got {
-		return Unknown, "inconclusive: " + msg
-	}
-	return res, msg
 }
 
-// Model fetches values for the given variables after a Sat answer.
-func (s *Solver) Model(vars []*Term) (map[string]uint64, error) {
-	res := map[string]uint64{}
+// run sends one query; on Sat it also fetches the model.
+func (p *Proc) run(text string, vars []*Term) (Result, map[string]uint64, string) {
+	if p.Kind == "cvc5" {
+		fmt.Fprintln(p.in, "(reset)\n(set-logic ALL)")
+	} else {
+		fmt.Fprintln(p.in, "(reset)")
+	}
+	fmt.Fprintln(p.in, "(set-option :produce-models true)")
+	p.in.WriteString(text)
+	fmt.Fprintln(p.in, "(check-sat)")
+	fmt.Fprintln(p.in, `(echo "<<done>>")`)
+	if err := p.in.Flush(); err != nil {
+		return Unknown, nil, "solver write failed: " + err.Error()
+	}
+	out, err := p.readUntilDone()
+	if err != nil {
+		return Unknown, nil, "solver died: " + err.Error() + " " + out
+	}
+	lines := strings.Fields(out)
+	res := Unknown
+	if len(lines) == 1 {
+		switch lines[0] {
+		case "sat":
+			res = Sat
+		case "unsat":
+			res = Unsat
+		}
+	}
+	if res == Unknown {
+		// any extra output (errors, warnings) makes the answer inconclusive
+		return Unknown, nil, "inconclusive: " + strings.TrimSpace(out)
+	}
+	if res == Unsat {
+		return res, nil, ""
+	}
+	model := map[string]uint64{}
 	const chunk = 200
 	for i := 0; i < len(vars); i += chunk {
 		j := min(i+chunk, len(vars))
 		var sb strings.Builder
 		sb.WriteString("(get-value (")
-		n := 0
 		for _, v := range vars[i:j] {
-			if s.Em.done[v] {
-				sb.WriteString(ref(v) + " ")
-				n++
-			}
+			sb.WriteString(ref(v) + " ")
 		}
 		sb.WriteString("))")
-		if n == 0 {
+		fmt.Fprintln(p.in, sb.String())
+		fmt.Fprintln(p.in, `(echo "<<done>>")`)
+		if err := p.in.Flush(); err != nil {
+			return Unknown, nil, "solver write failed: " + err.Error()
+		}
+		t, err := p.readUntilDone()
+		if err != nil {
+			return Unknown, nil, "solver died during get-value: " + err.Error()
+		}
+		if strings.Contains(t, "(error") {
+			return Unknown, nil, "get-value: " + t
+		}
+		parseValues(strings.ReplaceAll(t, "\n", " "), model)
+	}
+	return res, model, ""
+}
+
+// Pool holds one process per solver kind for one worker and races them on each query.
+type Pool struct {
+	Kinds   []string
+	SoftMs  int
+	procs   map[string]*Proc
+	Queries int
+	Time    time.Duration
+	Wins    map[string]int
+	LogDir  string
+	logSeq  int
+}
+
+func NewPool(kinds []string, softMs int) *Pool {
+	return &Pool{Kinds: kinds, SoftMs: softMs, procs: map[string]*Proc{}, Wins: map[string]int{}}
+}
+
+func (pl *Pool) Close() {
+	for _, p := range pl.procs {
+		p.kill()
+	}
+	pl.procs = map[string]*Proc{}
+}
+
+func (pl *Pool) proc(kind string) (*Proc, error) {
+	if p, ok := pl.procs[kind]; ok && !p.dead {
+		return p, nil
+	}
+	p, err := startProc(kind, pl.SoftMs)
+	if err != nil {
+		return nil, err
+	}
+	pl.procs[kind] = p
+	return p, nil
+}
+
+type answer struct {
+	kind  string
+	res   Result
+	model map[string]uint64
+	msg   string
+}
+
+// Solve races the configured solvers on q; the first definitive answer wins and the others are killed.
+// Every solver gets a hard wall-clock limit of 1.25x the soft limit (old z3 does not always honour -t).
+func (pl *Pool) Solve(q *Query) (Result, map[string]uint64, string, string) {
+	t0 := time.Now()
+	defer func() { pl.Time += time.Since(t0); pl.Queries++ }()
+	text, vars, _ := q.Text()
+	if pl.LogDir != "" {
+		pl.logSeq++
+		os.WriteFile(fmt.Sprintf("%s/q%04d.smt2", pl.LogDir, pl.logSeq), []byte(text+"(check-sat)\n"), 0o644)
+	}
+	ch := make(chan answer, len(pl.Kinds))
+	var running []*Proc
+	for _, k := range pl.Kinds {
+		p, err := pl.proc(k)
+		if err != nil {
+			ch <- answer{kind: k, res: Unknown, msg: err.Error()}
 			continue
 		}
-		fmt.Fprintln(s, sb.String())
-		fmt.Fprintln(s, `(echo "<<done>>")`)
-		s.in.Flush()
-		var txt strings.Builder
-		for {
-			l, err := s.readLine()
-			if err != nil {
-				return nil, err
-			}
-			if strings.Trim(l, `"`) == "<<done>>" {
-				break
-			}
-			txt.WriteString(l + " ")
-		}
-		t := txt.String()
-		if strings.Contains(t, "(error") {
-			return nil, fmt.Errorf("get-value: %s", t)
-		}
-		parseValues(t, res)
+		running = append(running, p)
+		go func(p *Proc) {
+			r, m, msg := p.run(text, vars)
+			ch <- answer{p.Kind, r, m, msg}
+		}(p)
 	}
-	return res, nil
+	hard := time.After(time.Duration(pl.SoftMs)*time.Millisecond*5/4 + 2*time.Second)
+	var msgs []string
+	for n := 0; n < len(pl.Kinds); n++ {
+		select {
+		case a := <-ch:
+			if a.res != Unknown {
+				for _, p := range running {
+					if p.Kind != a.kind {
+						p.kill() // still busy with this query
+					}
+				}
+				pl.Wins[a.kind]++
+				return a.res, a.model, a.kind, ""
+			}
+			msgs = append(msgs, a.kind+": "+a.msg)
+			// the process stays usable unless it died
+			if strings.Contains(a.msg, "died") || strings.Contains(a.msg, "write failed") {
+				if p := pl.procs[a.kind]; p != nil {
+					p.kill()
+				}
+			}
+		case <-hard:
+			for _, p := range running {
+				p.kill()
+			}
+			return Unknown, nil, "", "hard timeout; " + strings.Join(msgs, "; ")
+		}
+	}
+	return Unknown, nil, "", strings.Join(msgs, "; ")
 }
 
 // parseValues parses "((|name| #x..) (|n2| #b..))".
